@@ -34,6 +34,8 @@ LET = [
     ("BS(.4,.1).H", lambda: ops.BSgate(0.4, 0.1).H, (0, 1)),
     ("BS(pi/4,pi/2)", lambda: ops.BSgate(PI / 4, PI / 2), (0, 1)),
     ("BS(pi/4,pi/2)", lambda: ops.BSgate(PI / 4, PI / 2), (1, 0)),
+    ("BS(pi/4,0)", lambda: ops.BSgate(PI / 4, 0.0), (0, 1)),
+    ("BS(pi/4,0)", lambda: ops.BSgate(PI / 4, 0.0), (1, 0)),
     ("CX(.3)", lambda: ops.CXgate(0.3), (0, 1)),
     ("CX(.3)", lambda: ops.CXgate(0.3), (1, 0)),
     ("MX", lambda: ops.MeasureHomodyne(0.0), (0,)),
